@@ -123,7 +123,7 @@ Variable P : st -> Prop.
 Hypothesis P_frame : forall s s', frame s s' -> P s -> P s'.
 Hypothesis P_delegate : forall c who amts s s', delegate c who amts s = Ok s' -> P s -> P s'.
 Hypothesis P_undelegate : forall c who amts s s', undelegate v c who amts s = Ok s' -> P s -> P s'.
-Hypothesis P_slash : forall c sl s s', slash c sl s = Ok s' -> P s -> P s'.
+Hypothesis P_slash : forall c sl s s', slash v c sl s = Ok s' -> P s -> P s'.
 Hypothesis P_pay : forall s who u, P s -> P (pay_undel s who u).
 
 Lemma claim_matured_loop_P : forall who l s s', claim_matured_loop who l s = Ok s' -> P s -> P s'.
@@ -194,7 +194,7 @@ Proof.
     inversion H; subst. apply P_pay. exact I.
   - eapply claim_matured_loop_P; eauto.
   - eapply P_slash; eauto.
-  - destruct (slash c sl s); discriminate.
+  - destruct (v_slash_byref v); [eapply P_slash; eauto|]. destruct (slash v c sl s); discriminate.
   - unfold send_shares in H. destruct (all_gte _ _); cbn [negb] in H; [|discriminate]. inversion H; subst.
     eapply P_frame; [|exact I]. framed.
   - unfold claim_rewards in H. destruct (existsb _ _); [discriminate|]. inversion H; subst.
@@ -270,9 +270,9 @@ Qed.
 (* while the pool has never been slashed, shares are 1:1 with stake *)
 Definition inv_unslashed (s : st) : Prop := slashed s = 0 -> forall d, stake s d = shares s d.
 
-Lemma slash_nonzero : forall c sl s s', slash c sl s = Ok s' -> slashed s' = sl /\ sl <> 0.
+Lemma slash_nonzero : forall v c sl s s', v_slash_guard v = false -> slash v c sl s = Ok s' -> slashed s' = sl /\ sl <> 0.
 Proof.
-  intros c sl s s' H. unfold slash in H.
+  intros v c sl s s' G H. unfold slash in H. rewrite G in H. cbn [negb] in H. rewrite andb_true_r in H.
   destruct (existsb _ _); [discriminate|].
   destruct (_ <=? 0) eqn:E; [discriminate|].
   repeat match type of H with (if ?b then _ else _) = _ => destruct b; [discriminate|] end.
@@ -305,15 +305,17 @@ Proof.
       rewrite (IH t Z0 I Ht d). rewrite <- (I e). rewrite ceil_div_exact by lia. reflexivity.
 Qed.
 
-Theorem unslashed_one_to_one : forall v c ops s, inv_unslashed s -> inv_unslashed (run v c ops s).
+(* (without the empty-burn guard a slash by 0 panics, so a successful slash always leaves slashed > 0; with the
+   guard of 27b0386 a later slash by exactly 0 resets Slashed to 0 on a pool whose stake is below its shares) *)
+Theorem unslashed_one_to_one : forall v c ops s, v_slash_guard v = false -> inv_unslashed s -> inv_unslashed (run v c ops s).
 Proof.
-  intros v c ops s. apply run_P.
+  intros v c ops s G. apply run_P.
   - intros s0 s1 (A & B & C & _) I Z0 d. rewrite B, C. apply I. congruence.
   - intros c0 who amts s0 s1 H I. apply delegate_fields in H. destruct H as [_ ->]. intros Z0 d. ssimpl.
     rewrite Z0, !cadds_val, csum_pool_coins_unslashed, I by assumption. reflexivity.
   - intros c0 who amts s0 s1 H I. apply undelegate_fields in H. destruct H as (pc & R & _ & _ & ->). intros Z0 d. ssimpl.
     rewrite !csubs_val, (redeem_unslashed _ _ _ _ Z0 (I Z0) R), I by assumption. reflexivity.
-  - intros c0 sl s0 s1 H I Z0. apply slash_nonzero in H. destruct H; congruence.
+  - intros c0 sl s0 s1 H I Z0. apply (slash_nonzero _ _ _ _ _ G) in H. destruct H; congruence.
   - intros s0 who u I Z0 d. unfold pay_undel in *. ssimpl. apply I. assumption.
   - intros s0 t h I Z0 d. ssimpl. apply I. assumption.
   - intros s0 vs p I Z0 d. ssimpl. apply I. assumption.
@@ -756,9 +758,10 @@ Definition demo_init : st :=
   mkSt 1700000000 10 0 czero czero czero czero czero czero
        (fun a _ => if a <? 6 then 1000000 else 0) (fun _ => czero) (fun _ => czero)
        [] 0 [] (fun _ => (false, [], 0)) [] 0 czero.
-Definition tree_r0 : variant := mkVariant false 0 false false 0 false.   (* the tree before 86992ce / c0fbb8a *)
-Definition tree_r1 : variant := mkVariant true 1 false false 0 false.    (* with the claim-owner and end-blocker repairs *)
-Definition tree_r2 : variant := mkVariant true 1 true true 1 false.      (* + signers-only votes, "v<id>/" prefix, pro-rata redemption *)
+Definition tree_r0 : variant := mkVariant false 0 false false 0 false false false.   (* the tree before 86992ce / c0fbb8a *)
+Definition tree_r1 : variant := mkVariant true 1 false false 0 false false false.    (* with the claim-owner and end-blocker repairs *)
+Definition tree_r2 : variant := mkVariant true 1 true true 1 false false false. (* + signers-only votes, "v<id>/" prefix, pro-rata redemption *)
+Definition tree_r3 : variant := mkVariant true 1 true true 1 false true true.   (* + slashing keeper by reference, empty-burn guard (27b0386): the tree now *)
 
 (* two equal delegators, slash 1/2: the first one redeems the WHOLE remaining stake for HALF of his shares *)
 Definition slashed_pool (v : variant) : st :=
@@ -854,6 +857,22 @@ Example busy_state_nonvacuous :
   inv_supply s /\ inv_unslashed s /\ ids_bounded s /\ shares s 0 = 700 /\ sbal s 1 0 = 200 /\ List.length (undels s) = 1%nat.
 Proof.
   split; [apply share_supply_eq_book; intro; reflexivity|].
-  split; [apply unslashed_one_to_one; intros _ d; reflexivity|].
+  split; [apply unslashed_one_to_one; [reflexivity|intros _ d; reflexivity]|].
   split; [apply ids_stay_bounded; intros u []|]. vm_compute. repeat split.
 Qed.
+
+(* the governance slash path (slashing proposal handler): before 27b0386 it always panicked (state unchanged); now it
+   slashes, and redemption after it is pro rata: 50 of the remaining 100 stake cost 100 of the 200 shares *)
+Example governance_slash_then_pro_rata :
+  (let s := run tree_r2 demo_cfg [ODelegate 0 [(0, 100)]; ODelegate 1 [(0, 100)]; OSlashProposal HALF] demo_init in
+   slashed s = 0 /\ stake s 0 = 200) /\
+  (let s := run tree_r3 demo_cfg [ODelegate 0 [(0, 100)]; ODelegate 1 [(0, 100)]; OSlashProposal HALF] demo_init in
+   slashed s = HALF /\ stake s 0 = 100 /\ shares s 0 = 200 /\ redeem_coins tree_r3 s [(0, 50)] = Ok [(0, 100)] /\
+   is_ok (undelegate tree_r3 demo_cfg 0 [(0, 100)] s) = false /\ is_ok (undelegate tree_r3 demo_cfg 0 [(0, 50)] s) = true).
+Proof. vm_compute. repeat split. Qed.
+(* with the empty-burn guard a later slash by exactly 0 succeeds and resets Slashed to 0 while stake < shares:
+   the 1:1 invariant of "unslashed" pools no longer holds in that variant (delegation is re-opened at 1:1) *)
+Theorem unslashed_one_to_one_refuted_with_guard :
+  let s := run tree_r3 demo_cfg [ODelegate 0 [(0, 100)]; ODelegate 1 [(0, 100)]; OSlash HALF; OSlash 0] demo_init in
+  slashed s = 0 /\ stake s 0 = 100 /\ shares s 0 = 200.
+Proof. vm_compute. repeat split. Qed.
